@@ -102,6 +102,45 @@ theorem cshuffleWindows_perm (roll : σ → Nat → Nat × σ) (w : Nat) (x : Li
   have := windowOuter_perm roll w x.length x.length 0 x.toArray s
   simpa [cshuffleWindows] using Array.Perm.toList this
 
+/-! ## k-mer shuffling keeps the composition too -/
+
+theorem words_flatten {α : Type} (K W : Nat) (y : List α) (h : y.length = W * K) :
+    ((List.range W).map fun w => (y.drop (w * K)).take K).flatten = y := by
+  induction W generalizing y with
+  | zero =>
+    have : y = [] := List.length_eq_zero_iff.mp (by simpa using h)
+    simp [this]
+  | succ W ih =>
+    rw [List.range_succ_eq_map, List.map_cons, List.map_map, List.flatten_cons]
+    have hlen : (y.drop K).length = W * K := by
+      rw [List.length_drop, h, Nat.succ_mul]; omega
+    have e : ((fun w => (y.drop (w * K)).take K) ∘ Nat.succ) = fun w => ((y.drop K).drop (w * K)).take K := by
+      funext w
+      simp only [Function.comp, List.drop_drop, Nat.succ_mul]
+      congr 2; omega
+    rw [e, ih (y.drop K) hlen]
+    simp
+
+theorem kmerWords_flatten {α : Type} (K : Nat) (x : List α) :
+    x.take (x.length % K) ++ (kmerWords K x).flatten = x := by
+  have hy : (x.drop (x.length % K)).length = (x.length / K) * K := by
+    rw [List.length_drop]
+    have := Nat.div_add_mod x.length K
+    rw [Nat.mul_comm] at this
+    omega
+  have e : kmerWords K x = (List.range (x.length / K)).map fun w => ((x.drop (x.length % K)).drop (w * K)).take K := by
+    simp only [kmerWords, List.drop_drop]
+  rw [e, words_flatten K _ _ hy, List.take_append_drop]
+
+theorem cshuffleKmers_perm {α σ : Type} (roll : σ → Nat → Nat × σ) (K : Nat) (x : List α) (s : σ) :
+    (cshuffleKmers roll K x s).1.Perm x := by
+  have hp := Array.Perm.toList (shuffleLoop_perm roll (kmerWords K x).length (kmerWords K x).toArray s)
+  have hf : ((shuffleLoop roll (kmerWords K x).length (kmerWords K x).toArray s).1.toList).flatten.Perm (kmerWords K x).flatten :=
+    List.Perm.flatten (by simpa using hp)
+  have := (List.Perm.append_left (x.take (x.length % K)) hf)
+  rw [kmerWords_flatten K x] at this
+  simpa [cshuffleKmers] using this
+
 /-! ## the tool -/
 
 structure ShufOpts where
